@@ -28,6 +28,7 @@ type PropSpec struct {
 	Scope     string     `json:"scope"`     // what part of the property statement is decided
 	NotCovered []string  `json:"not_covered"`
 	Bounded   []string   `json:"bounded"`   // names of bounded stand-ins (run by the thorough tier)
+	Exclude   []string   `json:"exclude_classes"`
 }
 
 type PropFunc struct {
@@ -146,6 +147,7 @@ func cmdCheck(args []string) {
 	writeClaims := fs.Bool("write-claims", false, "rewrite the claim list from this run (baseline only)")
 	verbose := fs.Bool("v", false, "verbose")
 	noEvidence := fs.Bool("no-evidence", false, "do not write the evidence file")
+	replayOverride := fs.String("replay-dir", "", "directory for replay files (default <verif>/replay/<property>)")
 	fs.Parse(args)
 	if t := os.Getenv("VERIF_TIER"); t != "" && *tier == "" {
 		*tier = t
@@ -198,7 +200,7 @@ func cmdCheck(args []string) {
 			r := &unitReport{u: u, entry: en}
 			var keep []*Obl
 			for _, o := range u.obls {
-				if classAllowed(en.Classes, o.Class) {
+				if classAllowed(en.Classes, o.Class) && !(len(spec.Exclude) > 0 && classAllowed(spec.Exclude, o.Class)) {
 					keep = append(keep, o)
 				}
 			}
@@ -321,6 +323,9 @@ func cmdCheck(args []string) {
 
 	// replay files for violations
 	replayDir := filepath.Join(*verif, "replay", *prop)
+	if *replayOverride != "" {
+		replayDir = *replayOverride
+	}
 	os.MkdirAll(replayDir, 0o755)
 	exit := 0
 	for _, k := range known {
